@@ -32,7 +32,8 @@ func init() {
 	Register(&Prop{
 		ID:    "C04",
 		Title: "Joins return the textbook multiset for every join type and strategy",
-		Rule: "rapid draws two tables (0-6 rows) with 1-3 key columns per side whose names are drawn independently (so they sort differently on " +
+		Rule: "[Dimensions added in rounds p-r of the seeded-defect evaluation: alias pairs of which one is a prefix of the other or that differ in letter case only; a sixth of the enveloped cases run after 1-3 failing statements (join keys unreadable on a later key column etc.).] " +
+			"rapid draws two tables (0-6 rows) with 1-3 key columns per side whose names are drawn independently (so they sort differently on " +
 			"the two sides), key values from shared pools of 2-3 values (duplicates, multi-column combinations, strings containing '-' and " +
 			"digits-as-text; a third of the numeric key columns are handed over as native Go int*/uint*/float32 values, independently per side; a sixth of the pairs as int64 / uint64 beyond 2^53 on both sides, mapped back exactly from the raw result), an ON tree of column-to-column comparisons (= != < <= > >=, either orientation) joined by AND/OR (depth<=3; pure " +
 			"equi-conjunctions forced often) and a join type (about 2% of the pure equi cases expand one operand to 200-700 rows by a recipe, its first key column spread over the shared pool plus up to 300 values the other side lacks); every applicable spelling (JOIN, INNER JOIN, STRAIGHT_JOIN, [LEFT|RIGHT] [OUTER] JOIN, " +
